@@ -82,6 +82,38 @@ def run_driver(chk, drv, cases, tag, wd_ms=45000):
     return lines, statuses
 
 
+def start_mlevel(chk, specsrc, good):
+    """TwoPCTrace.tla per (replica count, writers) group, in threads; returns (threads, set of conforming case names)"""
+    groups = {}
+    for s in good:
+        h = s[0]
+        groups.setdefault((h["n"], tuple(h["writers"])), []).append(s)
+    conform, mlock = set(), threading.Lock()
+
+    def mjob(key, gsegs):
+        n, writers = key
+        d = os.path.join(chk.tmp, "mt-%d-%s" % (n, "".join(map(str, writers))))
+        V.copy_specs(specsrc, d)
+        with open(os.path.join(d, "TwoPCTrace.cfg"), "w") as f:
+            f.write(trace_cfg(n, writers))
+        with open(os.path.join(d, "trace.ndjson"), "w") as f:
+            for s in gsegs:
+                f.write(json.dumps(dict(s[0], len=len(s))) + "\n")
+                for ln in s[1:]:
+                    f.write(json.dumps(ln) + "\n")
+        res = V.tlc(d, "TwoPCTrace", cfg="TwoPCTrace.cfg", workers=2, timeout=2400, deadlock=False)
+        with mlock:
+            chk.tlc_jobs.append(res.summary("TwoPCTrace n=%d writers=%s (%d cases)" % (n, list(writers), len(gsegs))))
+            chk.states += res.distinct; chk.transitions += res.generated
+            if res.error or res.timed_out:
+                chk.drift.append({"spec": "TwoPC.tla", "group": str(key), "error": res.error or "timeout"})
+            for m in re.finditer(r'<<"CONFORMS", "([^"]*)">>', res.out):
+                conform.add(m.group(1))
+    mths = [threading.Thread(target=mjob, args=(k, g)) for k, g in groups.items()]
+    [t.start() for t in mths]
+    return mths, conform
+
+
 def run(chk):
     specsrc = os.path.join(V.SPEC, "C11")
     work = os.path.join(chk.tmp, "spec")
@@ -112,33 +144,41 @@ def run(chk):
     th = threading.Thread(target=design)
     th.start()
 
-    # vacuity guards that also produce the schedules replayed on the code
-    res = V.tlc(work, "DWReplay", cfg="DWReplayNoFilter.cfg", workers=1, timeout=600, deadlock=False)
+    # vacuity guards that also produce the schedules replayed on the code, and the simulation runs that
+    # export schedules of the repaired protocol (invariants checked on every state on the way); all in parallel
+    sims = [("MC3Sim", 3, [1, 2], 16 if quick else 120), ("MC4Sim", 4, [1, 2, 3], 8 if quick else 60),
+            ("MC5Sim", 5, [1, 2, 3], 6 if quick else 50)]
+    if not quick:
+        sims.append(("MC7Sim", 7, [1, 2, 3, 4], 30))
+    pre = {}
+
+    def prejob(key, module, cfg, **kw):
+        d = os.path.join(chk.tmp, "pre-" + key)
+        V.copy_specs(specsrc, d)
+        os.makedirs(os.path.join(d, "b"), exist_ok=True)
+        pre[key] = (V.tlc(d, module, cfg=cfg + ".cfg", deadlock=False, **kw), d)
+    pths = [threading.Thread(target=prejob, args=("dw", "DWReplay", "DWReplayNoFilter"), kwargs=dict(workers=1, timeout=900)),
+            threading.Thread(target=prejob, args=("rel", "MCTwoPC", "MC3PinnedRPC"), kwargs=dict(workers=2, timeout=900))]
+    for cfg, n, writers, num in sims:
+        pths.append(threading.Thread(target=prejob, args=(cfg, "MCTwoPC", cfg), kwargs=dict(
+            workers=2, timeout=1200, simulate="file=b/t,num=%d" % max(1, num // 2), depth=160, seed=seed * 1000 + n)))
+    [t.start() for t in pths]
+    [t.join() for t in pths]
+    res = pre["dw"][0]
     chk.tlc_jobs.append(res.summary("DWReplay without the filter (expected: OneWinnerPerVersion violated on the model)"))
     chk.notes["model_double_winner_without_filter"] = bool(res.violation and "OneWinnerPerVersion" in res.violation)
     if not chk.notes["model_double_winner_without_filter"]:
         chk.inconclusive.append("vacuity: the model without the sender-time filter no longer yields two winners: " + str(res.error or res.violation))
     dw_acts = acts_of(res.out)
-    res = V.tlc(work, "MCTwoPC", cfg="MC3PinnedRPC.cfg", workers=2, timeout=900, deadlock=False)
+    res = pre["rel"][0]
     chk.tlc_jobs.append(res.summary("MC3PinnedRPC: Go == on decoded values (expected: Released violated on the model)"))
     chk.notes["model_capture_with_pointer_identity"] = bool(res.violation and "Released" in res.violation)
     if not chk.notes["model_capture_with_pointer_identity"]:
         chk.inconclusive.append("vacuity: the model with pointer identity no longer captures a replica: " + str(res.error or res.violation))
     rel_acts = acts_of(res.out)
-
-    # schedules: TLC simulation of the repaired protocol (invariants checked on every state on the way)
-    sims = [("MC3Sim", 3, [1, 2], 16 if quick else 120), ("MC4Sim", 4, [1, 2, 3], 8 if quick else 60),
-            ("MC5Sim", 5, [1, 2, 3], 6 if quick else 50)]
-    if not quick:
-        sims.append(("MC7Sim", 7, [1, 2, 3, 4], 30))
     scripts = []
     for cfg, n, writers, num in sims:
-        d = os.path.join(chk.tmp, "sim-" + cfg)
-        V.copy_specs(specsrc, d)
-        os.makedirs(os.path.join(d, "b"), exist_ok=True)
-        nw = 2
-        res = V.tlc(d, "MCTwoPC", cfg=cfg + ".cfg", workers=nw, timeout=900, deadlock=False,
-                    simulate="file=b/t,num=%d" % max(1, num // nw), depth=160, seed=seed * 1000 + n)
+        res, d = pre[cfg]
         chk.add_tlc("%s simulation (schedule export, invariants on every state)" % cfg, res)
         files = sorted(glob.glob(os.path.join(d, "b", "t_*")))
         for i, fn in enumerate(files[:num]):
@@ -211,7 +251,15 @@ def run(chk):
 
     # ------------------------------------------------------------------ 4. P-level verdicts (TLC folds the recorded events)
     good = [s for s in segs if not any(ln.get("e") == "hang" for ln in s)]
-    obs = V.fold_traces(work, "OneCopyObs", "OneCopyObs.cfg", good, timeout=2400, chunks=4 if quick else 10, max_rounds=8)
+    obsbox = {}
+
+    def pfold():
+        obsbox["r"] = V.fold_traces(work, "OneCopyObs", "OneCopyObs.cfg", good, timeout=2400, chunks=4 if quick else 10, max_rounds=8)
+    pth = threading.Thread(target=pfold)
+    pth.start()
+    mths = start_mlevel(chk, specsrc, good)
+    pth.join()
+    obs = obsbox["r"]
     chk.states += obs["states"]; chk.transitions += obs["transitions"]; chk.traces += obs["accepted"]
     for e in obs["errors"]:
         chk.inconclusive.append("OneCopyObs: " + e)
@@ -242,34 +290,8 @@ def run(chk):
                        "events": seg[max(0, r["line_in_seg"] - 40):r["line_in_seg"] + 2]})
 
     # ------------------------------------------------------------------ 5. M-level conformance (drift only)
-    groups = {}
-    for s in good:
-        h = s[0]
-        groups.setdefault((h["n"], tuple(h["writers"])), []).append(s)
-    conform, mlock = set(), threading.Lock()
-
-    def mjob(key, gsegs):
-        n, writers = key
-        d = os.path.join(chk.tmp, "mt-%d-%s" % (n, "".join(map(str, writers))))
-        V.copy_specs(specsrc, d)
-        with open(os.path.join(d, "TwoPCTrace.cfg"), "w") as f:
-            f.write(trace_cfg(n, writers))
-        with open(os.path.join(d, "trace.ndjson"), "w") as f:
-            for s in gsegs:
-                s[0]["len"] = len(s)
-                for ln in s:
-                    f.write(json.dumps(ln) + "\n")
-        res = V.tlc(d, "TwoPCTrace", cfg="TwoPCTrace.cfg", workers=2, timeout=2400, deadlock=False)
-        with mlock:
-            chk.tlc_jobs.append(res.summary("TwoPCTrace n=%d writers=%s (%d cases)" % (n, list(writers), len(gsegs))))
-            chk.states += res.distinct; chk.transitions += res.generated
-            if res.error or res.timed_out:
-                chk.drift.append({"spec": "TwoPC.tla", "group": str(key), "error": res.error or "timeout"})
-            for m in re.finditer(r'<<"CONFORMS", "([^"]*)">>', res.out):
-                conform.add(m.group(1))
-    mths = [threading.Thread(target=mjob, args=(k, g)) for k, g in groups.items()]
-    [t.start() for t in mths]
-    [t.join() for t in mths]
+    [t.join() for t in mths[0]]
+    conform = mths[1]
     chk.notes["m_level_cases_conforming"] = len(conform)
     for s in good:
         name = s[0].get("case")
